@@ -161,6 +161,12 @@ impl<'a, 'g> Reader<'a, 'g> {
         if let Some(base) = k.strip_suffix('*') { while self.more() { self.kind(base, out)?; } return Some(()); }
         if let Some(base) = k.strip_suffix('?') { if self.more() { self.kind(base, out)?; } return Some(()); }
         match k {
+            // (the free-form argument list of OpExtInst may hold literals and strings when built through the Builder)
+            "IdRef" if self.op == 12 && self.first_id.is_some() && self.toks.get(self.p).map(|t| !t.starts_with('%')).unwrap_or(false) => {
+                let t = self.next()?;
+                if t.starts_with('"') { out.push(SOp { k: "LiteralString".into(), w: vec![], s: Some(unescape(&t)?) }); }
+                else { out.push(SOp::one("LiteralBit32", t.parse().ok()?)); }
+            }
             "IdRef" | "IdScope" | "IdMemorySemantics" => { let t = self.next()?; let id = id_tok(&t)?; if self.first_id.is_none() { self.first_id = Some(id); } out.push(SOp::one(k, id)); }
             "LiteralInteger" | "LiteralFloat" => { let t = self.next()?; out.push(SOp::one("LiteralBit32", t.parse().ok()?)); }
             "LiteralExtInstInteger" => {
@@ -490,7 +496,21 @@ pub fn drive(args: &[String]) {
         }
     }
     insts.extend(skeleton(body, &mut rng));
-    if let Some(m) = load_insts(&mut out, &insts) { out.ev(disasm_event(&v, &m, "extinst-strings")); }
+    if let Some(m) = load_insts(&mut out, &insts) {
+        out.ev(disasm_event(&v, &m, "extinst-strings"));
+        // "for all modules ... the Builder can produce": Builder::ext_inst takes ANY operands after the instruction number;
+        // the same module with literal / string arguments appended to some OpExtInst as data
+        let mut m2 = m.clone();
+        let mut k = 0u32;
+        for f in m2.functions.iter_mut() { for b in f.blocks.iter_mut() { for i in b.instructions.iter_mut() {
+            if i.class.opcode == spirv::Op::ExtInst && i.operands.len() <= 4 {
+                k += 1;
+                match k % 5 { 0 => i.operands.push(dr::Operand::LiteralBit32(k)), 1 => { i.operands.push(dr::Operand::LiteralBit32(3)); i.operands.push(dr::Operand::IdRef(9)); }
+                              2 => i.operands.push(dr::Operand::LiteralString("x y".to_string())), _ => {} }
+            }
+        } } }
+        out.ev(disasm_event(&v, &m2, "extinst-strings"));
+    }
     let events = out.finish();
     println!("{}", json!({"events": events}));
 }
